@@ -67,6 +67,13 @@ theorem copy_result_mutation_frame {s : Sig} {args : List Obj} (h : Heap α) {b 
     have := (call_fresh h hfresh hw).1 w.1 (hws w hwm)
     exact Nat.not_le.mpr hlt (heq ▸ this)
 
+/-- **model satisfies spec, in the decidable form the harness evaluates on the implementation's observations**
+(`c14.check` computes exactly `frameB` / `freshB` on the snapshots taken around each real call). -/
+theorem call_spec_holds [DecidableEq α] {s : Sig} {args : List Obj} (h : Heap α) {b : Beh α}
+    (hs : s.writes = []) (hw : b.within s h.length args = true) (hv : validArgs h.length args = true) :
+    frameB h (applyBeh h b) (reach args) = true ∧ (s.shares = [] → freshB h.length b.ret = true) :=
+  ⟨(frameB_iff _ _ _).mpr (call_frame h hs hw hv), fun hf => (freshB_iff _ _).mpr (call_fresh h hf hw).1⟩
+
 /-! ## any sequence -/
 
 /-- invariant of a history that started from heap `base`: the heap only grew, every cell of `base` still holds its
